@@ -270,7 +270,7 @@ example : resultAlone demoStore (digestOp 3 4) = [10, 11, 12] := by decide
 example : (List.range 6).map (fun k => (exec roundRobin ⟨demoStore, demoProgs.map Thread.ofOps⟩).σ (3 + k)) =
     [33, 33, 33, 33, 33, 33] := by decide
 
-example : listedOps.length = 24 := by decide
+example : listedOps.length = 25 := by decide
 example : predictPure "write" = "unchanged" := by decide
 
 end SfntV.Props.C16
